@@ -209,3 +209,113 @@ def check_dl_errors(ck, prog, config, clause):
                       'failure of %s can end in exit status 0: %s' % (name, rule.violations[0]['what']),
                       c.file, c.line, config=config)
     ck.min_instances('checked calls in zckdl main', n, 8)
+
+
+# ------------------------------------------------------------------ R7.fd-cursor
+def check_fd_cursor(ck, prog, config, clause):
+    """A tool function that takes the descriptor of a context the library is reading (zck_get_fd) and repositions it
+    (lseek SEEK_SET, or a transfer that writes through it) must hand it back where the library left it: every
+    success exit is reached with the last repositioning being lseek(fd, <offset saved by lseek(fd, 0, SEEK_CUR)>,
+    SEEK_SET).  The library reads sequentially and may have read ahead (read_lead reads 25 bytes of a 23-byte lead);
+    a computed position puts its cursor out of step with what it has buffered."""
+    n = 0
+    for fn in sorted(prog.funcs.values(), key=lambda f: f.qname):
+        if not fn.unit.endswith('src/zck_dl.c') or fn.body is None:
+            continue
+        fds = set()
+        for s in walk_stmts_(fn.body):
+            if s.k == 'decl' and s.e is not None and any(callee_name(c) == 'zck_get_fd' for c in calls_in(s.e)):
+                fds.add(s.var.decl)
+        if not fds:
+            continue
+
+        class Cur(FactRule):
+            name = 'R7.fd-cursor'
+
+            def __init__(s, prog, fn):
+                FactRule.__init__(s, prog, fn)
+                s.seeks = 0
+
+            def is_fd(s, e):
+                e = strip(e)
+                return e is not None and e.k == 'var' and e.decl in fds
+
+            def on_call(s, c2, call, ts):
+                if c2.fn is not s.fn:
+                    return ts
+                nm = callee_name(call)
+                if nm == 'lseek' and s.is_fd(call.a[1]):
+                    whence = const_value(call.a[3])
+                    if whence == 0:       # SEEK_SET
+                        s.seeks += 1
+                        off = strip(call.a[2])
+                        if off is not None and off.k == 'var' and ('saved', off.decl) in ts:
+                            ts = (ts - frozenset(['moved'])) | frozenset(['restored'])
+                        else:
+                            ts = (ts - frozenset(['restored'])) | frozenset(['moved'])
+                elif nm in ('dl_byte_range', 'dl_range', 'dl_bytes'):
+                    ts = (ts - frozenset(['restored'])) | frozenset(['moved'])
+                return ts
+
+            def on_assign(s, c2, lhs, rhs, op, value, ts):
+                if c2.fn is not s.fn:
+                    return ts
+                ts = s.kill_terms(lhs, ts)
+                if rhs is None:
+                    return ts
+                l = strip(lhs)
+                r = strip(rhs)
+                while r is not None and r.k == 'cast' and r.a:
+                    r = strip(r.a[0])
+                if l is not None and l.k == 'var':
+                    ts = frozenset(x for x in ts if not (isinstance(x, tuple) and x[0] == 'saved' and x[1] == l.decl))
+                    if r is not None and r.k == 'call' and callee_name(r) == 'lseek' and s.is_fd(r.a[1]) and \
+                            const_value(r.a[2]) == 0 and const_value(r.a[3]) == 1 and 'moved' not in ts:
+                        ts = ts | frozenset([('saved', l.decl)])
+                return ts
+
+            def on_edge(s, c2, node, label, refined, ts):
+                # linear comparison facts, used only to discard exits that contradict an earlier test
+                if c2.fn is not s.fn:
+                    return ts
+                from .common import lin
+                from .bounds import cons_of
+                op, l, r = atom_cmp(node.e, label)
+                lv, rv = lin(l, None), lin(r, None)
+                if lv is not None and rv is not None and (lv.t or rv.t):
+                    for c in cons_of(op, lv, rv):
+                        ts = ts | frozenset([('c', c)])
+                return ts
+
+            def kill_terms(s, lhs, ts):
+                p = pstr(lhs)
+                return frozenset(x for x in ts if not (isinstance(x, tuple) and x[0] == 'c' and p in x[1].t))
+
+            def feasible(s, ts):
+                from .guardlen import fm_feasible
+                cons = [x[1] for x in ts if isinstance(x, tuple) and len(x) == 2 and x[0] == 'c']
+                return not cons or fm_feasible(cons) is not None
+
+            def on_return(s, c2, node, mask, ts):
+                if c2.fn is s.fn and mask & (P1 | POS) and 'moved' in ts and s.feasible(ts):
+                    s.violate(c2, 'cursor-moved', '%s() returns success after repositioning the descriptor of a context the '
+                              'library is reading, without putting it back at the offset the library left (saved with '
+                              'lseek(fd, 0, SEEK_CUR) before the first move): the library continues at a position that does '
+                              'not match the bytes it has already buffered - the header is read misaligned and its '
+                              'checksum fails (overall checksum type SHA-512/128: lead shorter than the 25 bytes read '
+                              'ahead)' % s.fn.name, inst='restore', node=node)
+                return ts
+        r = Cur(prog, fn)
+        run_rule(prog, fn, r)
+        n += r.seeks
+        ck.ob(clause, 'R7.fd-cursor', fn.name, 'restore', not r.violations,
+              '%d repositioning(s) of the library\'s descriptor, every success exit restores the saved offset' % r.seeks
+              if not r.violations else r.violations[0].msg, fn.file,
+              r.violations[0].node.line if r.violations else fn.line,
+              path=r.violations[0].path if r.violations else None, config=config)
+    ck.min_instances('repositionings of a library descriptor in zckdl', n, 2)
+
+
+def walk_stmts_(b):
+    from ..ir import walk_stmts
+    return walk_stmts(b)
